@@ -11,5 +11,5 @@ CONSTANTS
   LifeKeys <- MCLife
 SPECIFICATION MCSpec
 INVARIANTS TypeOK MemExact UniqueKey RemovedAbsent
-PROPERTIES HitOnlyExactGen RemoveThenMiss EvictToLow SecondChance TouchSetsRef EvictNoOvershoot
+PROPERTIES HitOnlyExactGen RemoveThenMiss EvictToLow SecondChance TouchSetsRef RefOnlyByTouch EvictNoOvershoot
 VIEW MCView
